@@ -41,7 +41,9 @@ def served (i : In) : Bool :=
 def specOK (i : In) : Obs → Bool
   | .panic => false                                         -- never panics, for any amount
   | .hang => !(i.amount == 0) && !served i                  -- prompt for 0; served ⇒ returns
-  | .ok hs => hs == List.range' (i.fromHeight + 1) i.amount -- exactly the requested headers
+  | .ok hs =>                                               -- exactly the requested headers,
+    hs == List.range' (i.fromHeight + 1) i.amount &&        -- and only if they verify against `from`
+    (i.amount == 0 || i.sameChain)
   | .err => !served i
 
 end Lumina.Spec.C27
